@@ -443,4 +443,71 @@ def checkScenario (p : Prog) (sc : Scenario) (defaultConc : Nat) (o : Obs) : Lis
    | .flow => checkFlow p sc defaultConc o
    | .par => checkPar p sc defaultConc o) ++ checkModifier o
 
+/-! ### structure of the generated job graph (`GD` line, C11)
+
+  `GD <pid> <job>:<dep>,<dep> ...` lists, in the order of the generated `sched.Enqueue` calls, every
+  job (`t<k>` = job of task k, `p<k>` = job of the predicate of task k, `?` = the harness could not
+  attribute the generated name) with the jobs its `Dependencies` literal names.  It is compared
+  with `genJobs p`; what `genJobs p` lists is characterised by `Gen.C11_pred_deps`
+  (Gen/DepsThms.lean).  The comparison is structural, hence independent of any schedule. -/
+
+/-- Identity of a job of the flow graph: (is a predicate job, id of the task). -/
+def jid (f : Fn) : Bool × Nat := (f.isPred, f.k)
+
+/-- The identities of the jobs that job `j` of `genJobs p` names as `Dependencies`. -/
+def depIds (p : Prog) (j : Job) : List (Bool × Nat) :=
+  j.deps.map fun d => jid ((genJobs p).getD d default).fn
+
+/-- The model's job graph: every job of `genJobs p` with the identities of its dependencies. -/
+def modelDeps (p : Prog) : List ((Bool × Nat) × List (Bool × Nat)) :=
+  (genJobs p).map fun j => (jid j.fn, depIds p j)
+
+def parseJid (s : String) : Option (Bool × Nat) :=
+  if s.startsWith "t" then ((s.drop 1).toNat?).map fun k => (false, k)
+  else if s.startsWith "p" then ((s.drop 1).toNat?).map fun k => (true, k)
+  else none
+
+def showJid : Option (Bool × Nat) → String
+  | some (b, k) => (if b then "p" else "t") ++ toString k
+  | none => "?"
+
+def showJidSet (l : List (Option (Bool × Nat))) : String :=
+  "{" ++ ",".intercalate (sortS (l.map showJid)).eraseDups ++ "}"
+
+/-- One `GD` entry `<job>:<dep>,<dep>,...`. -/
+def parseDepEntry (e : String) : Option (Bool × Nat) × List (Option (Bool × Nat)) :=
+  match e.splitOn ":" with
+  | [n, ds] => (parseJid n, if ds == "" then [] else (ds.splitOn ",").map parseJid)
+  | _ => (none, [none])
+
+/-- `entries`: the tokens of a `GD` line after the pid.  Divergences (kind `deps`):
+    (a) the multiset of job identities is not that of `genJobs p`;
+    (b) the SET of dependencies of a job differs from the model's (repetitions and the order inside
+        the list are irrelevant);
+    (c) a job names a dependency that is not enqueued earlier (any dependency-respecting order is
+        fine, it need not be the model's);
+    and any `?`. -/
+def checkDeps (p : Prog) (entries : List String) : List Div :=
+  let got := (entries.filter (· != "-")).map parseDepEntry
+  let want := modelDeps p
+  let unknown :=
+    if got.any (fun g => g.1.isNone || g.2.any (·.isNone)) then
+      [("deps", s!"pid {p.pid}: unattributed job name in [{" ".intercalate entries}]")]
+    else []
+  let gotIds := sortS (got.map fun g => showJid g.1)
+  let wantIds := sortS (want.map fun w => showJid (some w.1))
+  let ids := if gotIds != wantIds then [("deps", s!"pid {p.pid}: jobs got {gotIds} want {wantIds}")] else []
+  let sets := want.flatMap fun w =>
+    (got.filter (·.1 == some w.1)).flatMap fun g =>
+      let wd := w.2.map some
+      if g.2.all (wd.contains ·) && wd.all (g.2.contains ·) then []
+      else [("deps", s!"pid {p.pid}: job {showJid (some w.1)}: Dependencies got {showJidSet g.2} want {showJidSet wd}")]
+  let order := (List.range got.length).flatMap fun i =>
+    let g := got.getD i (none, [])
+    g.2.eraseDups.flatMap fun d =>
+      if d.isSome && !((got.take i).any (·.1 == d)) then
+        [("deps", s!"pid {p.pid}: job {showJid g.1} (enqueue position {i}) names {showJid d} which is not enqueued before it")]
+      else []
+  unknown ++ ids ++ sets ++ order
+
 end Gen.Check
